@@ -345,9 +345,14 @@ func c12GenGenesis(r *rand.Rand, variant int, n int) c12Gen {
 func c12Frac(r *rand.Rand, base string, zeroAlt string) (string, string) {
 	b := c12Big(base)
 	if b.Sign() <= 0 {
+		if r.Intn(3) == 0 {
+			return "0", "zero"
+		}
 		return zeroAlt, "zero-base"
 	}
-	switch r.Intn(6) {
+	switch r.Intn(7) {
+	case 6:
+		return "0", "zero"
 	case 0:
 		return b.String(), "all"
 	case 1:
@@ -373,6 +378,21 @@ func c12Chooser1(r *rand.Rand, n int, maxTx int, hist map[string]int) c12Chooser
 		for _, e := range cur.Active {
 			active[e.A] = e.Amt
 		}
+		if r.Intn(9) == 0 {
+			// zero burst: one delegator undelegates 0 (his only operation in this block), every
+			// other delegator with an active delegation undelegates a real part
+			z := r.Intn(n)
+			for a := 0; a < n; a++ {
+				if a == z {
+					ops = append(ops, c12Op{Kind: "undelegate", A: a, Amt: "0"})
+					hist["undelegate-zero-burst"]++
+				} else if act := active[a]; act != "" && c12Big(act).Sign() > 0 {
+					ops = append(ops, c12Op{Kind: "undelegate", A: a, Amt: new(big.Int).Div(c12Big(act), big.NewInt(int64(2+r.Intn(3)))).String()})
+					hist["undelegate-part"]++
+				}
+			}
+			return ops
+		}
 		last := r.Intn(n)
 		for i := 0; i < cnt; i++ {
 			a := r.Intn(n)
@@ -387,6 +407,8 @@ func c12Chooser1(r *rand.Rand, n int, maxTx int, hist map[string]int) c12Chooser
 			var o c12Op
 			var cls string
 			switch k := r.Intn(100); {
+			case k < 2:
+				o, cls = c12Op{Kind: "delegate", A: a, Amt: "0"}, "delegate-zero"
 			case k < 28:
 				o, cls = c12Op{Kind: "delegate", A: a, Amt: strconv.Itoa(1+r.Intn(50)) + e18}, "delegate"
 			case k < 31:
@@ -534,6 +556,23 @@ func c12Witnesses() []c12Spec {
 		// a genesis with pending entries at unrelated heights: every entry paid exactly once
 		// (the recorded findings are passed in through -extra by the check)
 		{Name: "witness_plain_pending", NUsers: 3, Gen: c12Gen{Pending: []c12Entry{{H: 5, A: 0, Amt: "8" + e18}, {H: 7, A: 1, Amt: "5" + e18}, {H: 7, A: 2, Amt: "2" + e18}}}, Blocks: blocks(9)},
+	}
+	// a ZERO undelegation by one delegator (alone in the block for him) next to real undelegations of
+	// the others maturing at the same height: the zero entry is a real key of the scan; everybody else
+	// must still be paid (one case per choice of the zero delegator, so that in some case addresses
+	// sort before and after it)
+	for z := 0; z < 3; z++ {
+		b := blocks(8)
+		b[0] = []c12Op{{Kind: "delegate", A: 0, Amt: "10" + e18}, {Kind: "delegate", A: 1, Amt: "10" + e18}, {Kind: "delegate", A: 2, Amt: "10" + e18}}
+		for a := 0; a < 3; a++ {
+			amt := "5" + e18
+			if a == z {
+				amt = "0"
+			}
+			b[1] = append(b[1], c12Op{Kind: "undelegate", A: a, Amt: amt})
+		}
+		b[2] = []c12Op{{Kind: "withdrawrw", A: z, Amt: "0"}, {Kind: "reinvest", A: z, Amt: "0"}, {Kind: "delegate", A: z, Amt: "0"}}
+		w = append(w, c12Spec{Name: fmt.Sprintf("witness_zero_undelegate_%d", z), NUsers: 3, Gen: c12Gen{}, Blocks: b})
 	}
 	return w
 }
